@@ -363,6 +363,7 @@ func relTimes(ts []time.Time) []string {
 }
 
 func TestC20AgentLifecycle(t *testing.T) {
+	defer vt.Watch("TestC20AgentLifecycle", 120*time.Second)()
 	rec := vt.For("C20")
 	rec.Rule("real agent.Agent with a recording node and a scripted pool in virtual time; rules: start, two concurrent starts, start with failing connect, start with failing first keep-alive, stop (while running) with a concurrent Wait, advance (random and exact multiples of the interval), forced update, make the next loop keep-alive fail; interval in [1s,119s] or unset (60s); oracle (model): first start => one Connect + one immediate keep-alive; start while running => ErrAlreadyStarted and no pool call; of two concurrent starts exactly one succeeds; loop keep-alives arrive at exactly loopStart+k*interval and floor(T/interval) of them in any window (a second loop would double them); stop => Wait returns nil at the next quiescent point and nothing is sent afterwards; a failed start leaves nothing running; a failed keep-alive ends the loop and Wait returns that error; restart works; at the end no goroutine is alive; non-trivial = history with a double start, a failed start or a restart; distinct by interval + op sequence")
 	rapid.Check(t, func(rt *rapid.T) {
